@@ -26,7 +26,7 @@ META = {
 RULE = ("valid: generated workspaces x styles, all files; intrinsic sweep: every (module, member) of intrinsic.modules.json; seeded: program x class x position "
         "with classes dup-decl, mask-host, open-block-at-bare-end, unknown-module, type-not-accessible, dummy-undeclared (also with IMPLICIT NONE only inherited from 1 or 2 hosts up), intent-not-arg, second-contains, "
         "outside-scope x{contains, implicit, public, private}, import-outside-interface, use-after-implicit (next line and same line after `;`), proc-before-contains, proc-in-type, proc-in-block, "
-        "deferred-unimplemented, long-line; evaluations = diagnostics passes judged; distinct = (program, class, position)")
+        "deferred-unimplemented (direct and through an abstract intermediate type), long-line; evaluations = diagnostics passes judged; distinct = (program, class, position)")
 ASSUME = ["seeded programs need not be valid Fortran otherwise", "message wording is free"]
 
 
@@ -199,6 +199,9 @@ def positions(w, rng, limit):
                            f"{pad}abstract interface", f"{pad}  subroutine zz_ai(s)", f"{pad}    import zz_ab", f"{pad}    class(zz_ab) :: s", f"{pad}  end subroutine zz_ai", f"{pad}end interface",
                            f"{pad}type, extends(zz_ab) :: zz_child", f"{pad}  integer :: zz_c", f"{pad}end type zz_child"]
                 out.append(("deferred-unimplemented", f, (lambda lines=lines, at=at, snippet=snippet: (ins(lines, at, snippet), {"sev": 1, "lines": {at + 10, at + 12}, "word": "zz_dd"}))))
+                # the same through an abstract intermediate type that leaves the binding open: the concrete grandchild is the offender
+                snippet3 = snippet[:10] + [f"{pad}type, abstract, extends(zz_ab) :: zz_mid", f"{pad}end type zz_mid", f"{pad}type, extends(zz_mid) :: zz_leaf", f"{pad}  integer :: zz_c", f"{pad}end type zz_leaf"]
+                out.append(("deferred-unimplemented-via-abstract-parent", f, (lambda lines=lines, at=at, snippet3=snippet3: (ins(lines, at, snippet3), {"sev": 1, "lines": {at + 12, at + 14}, "word": "zz_dd"}))))
         # 13a procedure nested in a type
         for ln, r, sc in roles:
             if r == "type-open":
